@@ -15,6 +15,31 @@ pub mod k1 {
     pub use self::secp256k1::*;
 }
 
+/// Verification hook: exposes both secp256k1 backends side by side so that a
+/// differential check can call them from one build. Compiled only under
+/// the `fuellabs_fuel_vm_verif` cargo feature.
+#[cfg(all(feature = "fuellabs_fuel_vm_verif", feature = "std"))]
+pub mod verif_k1 {
+    /// The portable (no-std) backend
+    pub mod k256 {
+        pub use super::super::k1::k256::{
+            public_key,
+            recover,
+            sign,
+            verify,
+        };
+    }
+    /// The standard-library backend
+    pub mod secp256k1 {
+        pub use super::super::k1::secp256k1::{
+            public_key,
+            recover,
+            sign,
+            verify,
+        };
+    }
+}
+
 /// secp256r1 implementations
 pub mod r1 {
     pub mod p256;
